@@ -147,6 +147,12 @@ func errTypeOf(f *Fn) reflect.Type {
 	if f.ErrT == "iface" {
 		return hostileType("HErrIface")
 	}
+	if f.ErrT == "ptr" {
+		// a concrete type that implements error: dig takes it for the error
+		// result; such a function never succeeds (a nil *HErrPtr in the
+		// error interface is not nil)
+		return reflect.TypeOf((*HErrPtr)(nil))
+	}
 	return errType
 }
 
@@ -196,6 +202,7 @@ type RT struct {
 	execs     map[int]int
 	errs      map[[2]int]*UserErr
 	errs2     map[[2]int]*UserErr // second error results (Fn.Err2)
+	errPtrs   map[[2]int]*HErrPtr // error values of functions whose error result is declared *HErrPtr (Fn.ErrT == "ptr")
 	panics    map[[2]int]interface{}
 	ek, pk    map[int]int // fn id -> error / panic kind (from the Fn specs seen)
 	errT      map[int]string
@@ -215,7 +222,7 @@ type RT struct {
 }
 
 func newRT() *RT {
-	return &RT{cbCalls: map[int]int{}, infos: infoSlots{map[int]*dig.ProvideInfo{}, map[int]*dig.DecorateInfo{}, map[int]*dig.InvokeInfo{}}, decoIDs: map[int]bool{}, ftypes: map[*Fn]reflect.Type{}, execs: map[int]int{}, errs: map[[2]int]*UserErr{}, errs2: map[[2]int]*UserErr{}, panics: map[[2]int]interface{}{}, ek: map[int]int{}, pk: map[int]int{}, errT: map[int]string{}, active: map[int]int{}}
+	return &RT{cbCalls: map[int]int{}, infos: infoSlots{map[int]*dig.ProvideInfo{}, map[int]*dig.DecorateInfo{}, map[int]*dig.InvokeInfo{}}, decoIDs: map[int]bool{}, ftypes: map[*Fn]reflect.Type{}, execs: map[int]int{}, errs: map[[2]int]*UserErr{}, errs2: map[[2]int]*UserErr{}, errPtrs: map[[2]int]*HErrPtr{}, panics: map[[2]int]interface{}{}, ek: map[int]int{}, pk: map[int]int{}, errT: map[int]string{}, active: map[int]int{}}
 }
 
 func (rt *RT) newTok(fn, exec int, slot string, elem int) int64 {
@@ -271,6 +278,15 @@ func (rt *RT) ownErr(fn, exec int, e error) bool {
 // errValueOf: the error value a failing execution returns: the sentinel, or
 // (EK 2) a typed nil pointer in the error interface - not nil, so a failure.
 func (rt *RT) errValueOf(fn, exec int) error {
+	if rt.errT[fn] == "ptr" {
+		k := [2]int{fn, exec}
+		if e, ok := rt.errPtrs[k]; ok {
+			return e
+		}
+		e := &HErrPtr{X: fn*1000 + exec}
+		rt.errPtrs[k] = e
+		return e
+	}
 	if rt.ek[fn] == 2 && rt.errT[fn] == "" {
 		return typedNilErr
 	}
@@ -690,11 +706,14 @@ func (rt *RT) call(f *Fn, args []reflect.Value) []reflect.Value {
 	if outcome == FaultError && !f.Err {
 		outcome = FaultOK // no error result to fail with
 	}
+	if f.Err && f.ErrT == "ptr" {
+		outcome = FaultError // see errTypeOf: every execution is a failure
+	}
 	var toks []int64
 	var out []reflect.Value
 	ep := f.errPos()
 	et := errTypeOf(f)
-	if f.Bank > 0 {
+	if f.Bank > 0 && f.ErrT != "ptr" {
 		et = errType
 	}
 	errVal := reflect.Zero(et)
